@@ -346,6 +346,13 @@ class Interp:
             return lst if name != 'builtins.set' else set(lst)
         if name == 'builtins.len':
             return len(self._to_list(args[0]))
+        if name == 'builtins.getattr' and len(args) >= 2 and isinstance(args[1], str):
+            obj = args[0]
+            if isinstance(obj, AObj) and args[1] in obj.attrs:
+                return obj.attrs[args[1]]
+            if isinstance(obj, (AObj, AClass)):
+                return self.getattr_(obj, args[1], {'__unit__': None, '__module__': None, '__closure__': None})
+            return TOP
         if name == 'builtins.enumerate':
             return list(enumerate(self._to_list(args[0])))
         if name == 'builtins.str':
@@ -364,6 +371,20 @@ class Interp:
             return args[1]
         # methods of python containers held abstractly
         recv = f.recv
+        if isinstance(recv, AObj) and name.startswith('networkx.DiGraph.') and isinstance(recv.attrs.get('edges'), dict):
+            edges = recv.attrs['edges']
+            if last == 'predecessors':
+                return [u for (u, v) in edges if v == args[0]]
+            if last == 'successors':
+                return [v for (u, v) in edges if u == args[0]]
+            if last == 'in_edges':
+                return [(u, v) for (u, v) in edges if v == args[0]]
+            if last == 'out_edges':
+                return [(u, v) for (u, v) in edges if u == args[0]]
+            if last == 'has_node':
+                return args[0] in recv.attrs.get('nodes', {})
+            if last == 'has_edge':
+                return (args[0], args[1]) in edges
         if isinstance(recv, (dict, set, list)) and last == '__contains__':
             return args[0] in recv
         if isinstance(recv, dict):
@@ -583,6 +604,9 @@ class Interp:
         if isinstance(obj, AObj):
             if real in obj.attrs:
                 return obj.attrs[real]
+            if attr in ('predecessors', 'successors', 'in_edges', 'out_edges', 'has_node', 'has_edge') and 'edges' in obj.attrs \
+                    and isinstance(obj.attrs['edges'], dict):
+                return AExt(f'networkx.DiGraph.{attr}', recv=obj)           # an abstract graph given by its edge / node tables
             if isinstance(obj.cls, ClassInfo):
                 m = self.p.lookup_method(obj.cls, attr, env['__unit__'].cls if env.get('__unit__') else None)
                 if m is not None:
